@@ -1254,7 +1254,7 @@ func (f *Frame) funcValueCall(ins ssa.Instruction, call *ssa.CallCommon, ct *cal
 	var vals []Value
 	var conds []*Term
 	for _, c := range cands {
-		ref := uf("fnref$"+sanitize(shortName(c)), sortInt)
+		ref := fnrefTerm(c)
 		f.addHyp(tTrue(), tGt(ref, tInt(0)))
 		cond := tEq(callee, ref)
 		conds = append(conds, cond)
